@@ -683,7 +683,20 @@ func convertStream(w *World, seed uint64, n int, out io.Writer) int {
 			return
 		}
 		defer node5.Close()
-		node5.ExecBlock(Block{DtNs: 1_000_000_000}, nil)
+		o5 := node5.ExecBlock(Block{DtNs: 1_000_000_000}, nil)
+		// a second fresh chain from the same genesis: the same application hash after the first block (what InitGenesis
+		// stores depends on the genesis file only)
+		if node5b, _, err := NewNode(w, gen5); err != nil {
+			bad++
+			fmt.Fprintf(out, "CONVBAD second import of the same genesis: %v\n", err)
+		} else {
+			o5b := node5b.ExecBlock(Block{DtNs: 1_000_000_000}, nil)
+			if o5.RawResp == nil || o5b.RawResp == nil || string(o5.RawResp.AppHash) != string(o5b.RawResp.AppHash) {
+				bad++
+				fmt.Fprintf(out, "CONVBAD two fresh chains importing the same genesis (populated pending records) differ in their application hash after block 1\n")
+			}
+			node5b.Close()
+		}
 		b, err := node5.App.POAKeeper.GetPendingValidators(node5.Ctx())
 		if err != nil || len(b.Validators) != len(recs) {
 			bad++
